@@ -10,9 +10,10 @@ Open Scope string_scope.
 Open Scope list_scope.
 
 (* input rail k has id k, output rail k has id 100 + k *)
-Record turn_case := mkTC { tc_user : text; tc_iv : list verdict; tc_ov : list verdict; tc_llm : list text }.
+Record turn_case := mkTC { tc_user : text; tc_iv : list verdict; tc_ov : list verdict; tc_llm : list text;
+                           tc_act : text }.   (* what the scripted custom action `rag` returns in this turn *)
 
-Definition tc_default := mkTC "" [] [] [].
+Definition tc_default := mkTC "" [] [] [] "".
 
 Definition vf_c (turns : list turn_case) (t c : nat) (r : rail) (x : text) : verdict :=
   let tc := nth t turns tc_default in
@@ -25,9 +26,10 @@ Definition refusal_c := "RFz".
 Definition refusal_out_c := "RFOz".
 Definition predef_c := "PDz".
 
-Definition intent_step_c (t : nat) (o : text) : dstep :=
+Definition intent_step_c (turns : list turn_case) (t : nat) (o : text) : dstep :=
   if String.eqb o "  express greeting" then DBot "express greeting"
   else if String.eqb o "  ask question" then DBot "answer question"
+  else if String.eqb o "  ask rag" then DBotVar (tc_act (nth t turns tc_default))
   else DAsk.
 
 Definition next_of_c (o : text) : string :=
@@ -43,10 +45,10 @@ Definition msg_of_c (o : text) : text := substring 3 (String.length o - 4) o.
 Definition value_of_c (o : text) : text := substring 1 (String.length o - 2) o.
 
 Definition turn_v1_c (turns : list turn_case) :=
-  turn_v1 (vf_c turns) (llm_c turns) (fun o => o) intent_step_c next_of_c predefined_c msg_of_c refusal_c.
+  turn_v1 (vf_c turns) (llm_c turns) (fun o => o) (intent_step_c turns) next_of_c predefined_c msg_of_c refusal_c.
 
 Definition conv_v1_c (turns : list turn_case) (cf : cfg) :=
-  conv_v1 (vf_c turns) (llm_c turns) (fun o => o) intent_step_c next_of_c predefined_c msg_of_c refusal_c
+  conv_v1 (vf_c turns) (llm_c turns) (fun o => o) (intent_step_c turns) next_of_c predefined_c msg_of_c refusal_c
           cf init_state (map tc_user turns).
 
 Definition conv_v2_c (fixd : bool) (turns : list turn_case) (cf : cfg2) :=
@@ -145,7 +147,7 @@ Definition check_v2 (c : cfg2 * list turn_case * list texp) : bool := check_v2_w
 
 (* sanity: the F3 scenario on the shipped (fix = false) and on the repaired model *)
 Definition f3_turns :=
-  [mkTC "U0z" [] [Accept] ["""L0z"""]; mkTC "U1z" [] [Reject] ["""L1z"""]; mkTC "U2z" [] [Accept] ["""L2z"""]].
+  [mkTC "U0z" [] [Accept] ["""L0z"""] ""; mkTC "U1z" [] [Reject] ["""L1z"""] ""; mkTC "U2z" [] [Accept] ["""L2z"""] ""].
 
 Example f3_shipped :
   map (fun r => (n_rail_calls (snd (fst r)), orip (fst (fst r)))) (conv_v2_c false f3_turns (mkCfg2 [] [100] false))
